@@ -84,6 +84,7 @@ class FnSpec:
 
 
 def parse_key(key):
+    key = key.split('#')[0]      # `#variant` distinguishes several contracts of one function
     m = re.match(r'^"([^"]+)"::(\w+)$', key)
     if m:
         return m.group(1), m.group(2)
